@@ -14,6 +14,9 @@ case kinds:
       LimitedHistoryLogObserver; observation: what each replay delivered
   "pub" cases may carry "dup": [i, ...]: observer i is registered a second time through an EQUAL but not identical object
       (a fresh bound method of the same sink object, as in addObserver(sink.emit) twice) — still one logical observer
+  {"k": "phist", "tab": [[bad_ev, bad_err], ...], "os": [i, ...], "ops": [["add", i] | ["rm", i] | ["ev", n], ...]}
+      a HISTORY on ONE publisher: addObserver / removeObserver / events interleaved (observers registered through bound
+      methods); the same observers fail again and again with registrations changing BETWEEN the failures
   {"k": "publive", "tab": [[bad_ev, bad_err, act], ...], "os": [i, ...], "events": [n, ...]}
       EXTENSION: observer i, when it gets an ordinary event, first does act (None | ["add", o] | ["rm", o]: addObserver /
       removeObserver of observer o on the SAME publisher, i.e. while the event is being dispatched), then raises iff
@@ -63,6 +66,38 @@ def impl(case) -> str:
             pub.addObserver(sinks[i].emit)        # a new bound-method object, equal to the registered one
         for n in case["events"]:
             pub({"n": n})
+        return " ".join(out)
+    if k == "phist":
+        from twisted.logger import LogPublisher
+        out = []
+
+        class Boom(Exception):
+            pass
+
+        class Sink:
+            def __init__(self, i, bad_ev, bad_err):
+                self.i, self.bad_ev, self.bad_err = i, bad_ev, bad_err
+
+            def emit(self, event):
+                if "n" in event:
+                    out.append(f"{self.i}:e{event['n']}")
+                    if self.bad_ev:
+                        raise Boom()
+                else:
+                    out.append(f"{self.i}:x{event['observer'].__self__.i}")
+                    if self.bad_err:
+                        raise Boom()
+        sinks = [Sink(i, be, br) for i, (be, br) in enumerate(case["tab"])]
+        pub = LogPublisher()
+        for i in case["os"]:
+            pub.addObserver(sinks[i].emit)
+        for op in case["ops"]:
+            if op[0] == "add":
+                pub.addObserver(sinks[op[1]].emit)
+            elif op[0] == "rm":
+                pub.removeObserver(sinks[op[1]].emit)
+            else:
+                pub({"n": op[1]})
         return " ".join(out)
     if k == "publive":
         from twisted.logger import LogPublisher
@@ -197,6 +232,54 @@ def oracle(case, obs):
                 return Failure(case, f"namespace {ns!r} level {lvl}: got {t}, expected level {want_level} pass={want_pass}",
                                "filter-most-specific-prefix" if t[:-1] != str(want_level) else "filter-decision")
         return None
+    if k == "phist":
+        toks = obs.split(" ") if obs else []
+        tab = case["tab"]
+        cur = []
+        for i in case["os"]:
+            if i not in cur:
+                cur.append(i)
+        pos = 0
+        failed_before = set()
+        for n_op, op in enumerate(case["ops"]):
+            if op[0] == "add":
+                if op[1] not in cur:
+                    cur.append(op[1])
+                continue
+            if op[0] == "rm":
+                if op[1] in cur:
+                    cur.remove(op[1])
+                continue
+            n = op[1]
+            want = [f"{i}:e{n}" for i in cur]
+            if toks[pos:pos + len(want)] != want:
+                return Failure(case, f"op {n_op} event {n}: expected deliveries {want} to the observers registered now, got "
+                               f"{toks[pos:pos + len(want)]}", "phist-delivery-once-in-order")
+            pos += len(want)
+            seg = []
+            while pos < len(toks) and ":x" in toks[pos]:
+                seg.append(toks[pos])
+                pos += 1
+            for t in seg:
+                o, b = (int(x) for x in t.split(":x"))
+                if o == b:
+                    return Failure(case, f"op {n_op} event {n}: failure of observer {b} reported to itself", "pub-reported-to-self")
+                if o not in cur:
+                    return Failure(case, f"op {n_op} event {n}: report about {b} delivered to observer {o}, which is not registered "
+                                   f"now ({cur})", "phist-report-to-unregistered-observer")
+            for b in cur:
+                if tab[b][0]:
+                    for o in cur:
+                        if o != b and f"{o}:x{b}" not in seg:
+                            again = b in failed_before
+                            return Failure(case, f"op {n_op} event {n}: failure of observer {b} not reported to observer {o}, "
+                                           f"registered now ({cur})" + (" — a repeated failure of that observer" if again else ""),
+                                           "phist-repeated-failure-not-reported-to-current-observers" if again
+                                           else "pub-failure-not-reported")
+                    failed_before.add(b)
+        if pos != len(toks):
+            return Failure(case, "unexpected trailing deliveries", "phist-delivery-once-in-order")
+        return None
     if k == "publive":
         toks = obs.split(" ") if obs else []
         tab = case["tab"]
@@ -302,6 +385,27 @@ def gen(rng, tier):
         n = rng.randrange(5, 8)
         cases.append({"k": "pub", "obs": [[rng.random() < 0.3, rng.random() < 0.2] for _ in range(n)],
                       "events": list(range(rng.randrange(1, 4)))})
+    # publisher histories: the same observers fail repeatedly; addObserver / removeObserver BETWEEN the failures
+    for first in (0, 1, 2):
+        for mid in ([["add", 3]], [["rm", 1]], [["rm", 1], ["add", 3]], [["add", 3], ["rm", 3], ["add", 4]], [["rm", 1], ["add", 1]], []):
+            tab = [[i == first, False] for i in range(3)] + [[False, False], [False, True]]
+            cases.append({"k": "phist", "tab": tab, "os": [0, 1, 2],
+                          "ops": [["ev", 1]] + mid + [["ev", 2]] + [["add", 4], ["ev", 3]]})
+    for _ in range(200 if tier == "quick" else 4000):
+        n = rng.randrange(2, 7)
+        tab = [[rng.random() < 0.35, rng.random() < 0.15] for _ in range(n)]
+        os_ = [i for i in range(n) if rng.random() < 0.5]
+        ops, e = [], 0
+        for _ in range(rng.randrange(3, 14)):
+            r = rng.random()
+            if r < 0.4:
+                ops.append(["ev", e])
+                e += 1
+            elif r < 0.75:
+                ops.append(["add", rng.randrange(n)])
+            else:
+                ops.append(["rm", rng.randrange(n)])
+        cases.append({"k": "phist", "tab": tab, "os": os_, "ops": ops + [["ev", e]]})
     # extension: observers that add / remove observers while the event is dispatched
     for _ in range(300 if tier == "quick" else 5000):
         n = rng.randrange(2, 7)
@@ -351,7 +455,7 @@ def gen(rng, tier):
             for pat in ((False, False), (True, False), (True, True)):
                 cases.append({"k": "pub", "obs": [list(pat) if i == d else [False, False] for i in range(n)], "events": [1, 2],
                               "dup": [d] + ([0] if n > 2 else [])})
-    # replays interleaved with events on one buffer
+    # publisher histories (addObserver / removeObserver / events interleaved, the same observers failing repeatedly with registrations changing between the failures); replays interleaved with events on one buffer
     for size in [None, 0, 1, 2, 3, 5]:
         for _ in range(6 if tier == "quick" else 60):
             ops = []
@@ -375,6 +479,8 @@ def corpus():
         {"k": "publive", "tab": [[False, False, ["rm", 0]], [False, False, None], [False, False, None]], "os": [0, 1, 2], "events": [7, 8]},
         {"k": "publive", "tab": [[True, False, ["add", 3]], [False, True, None], [False, False, ["add", 0]], [True, True, ["add", 1]]],
          "os": [0, 1, 2], "events": [1, 2]},
+        {"k": "phist", "tab": [[True, False], [False, False], [False, False]], "os": [0, 1],
+         "ops": [["ev", 1], ["add", 2], ["ev", 2], ["rm", 1], ["ev", 3]]},
         {"k": "buf2", "size": 3, "ops": [["e", 1], ["e", 2], ["e", 3], ["e", 4], ["r"], ["r"], ["e", 5], ["r"]]},
         {"k": "pub", "obs": [[False, False], [True, False]], "events": [1], "dup": [0, 1]},
         {"k": "buf", "size": 0, "events": [1, 2, 3]},
@@ -418,6 +524,10 @@ def to_coq(case):
                 return f"FQuery {coq_list(map(str, _seg_ids(o[1])), 'nat')}"
             return f"FFilter {coq_option(None if o[1] is None else str(o[1]), 'nat')} {coq_list(map(str, _seg_ids(o[2])), 'nat')}"
         return f"CFHist {case['default']} {coq_list(map(fop, case['ops']), 'fop')}"
+    if k == "phist":
+        tab = [f"mkL {coq_bool(a)} {coq_bool(b)} ONone" for a, b in case["tab"]]
+        ops = [("PAdd %d" % o[1]) if o[0] == "add" else ("PRem %d" % o[1]) if o[0] == "rm" else ("PEv %d" % o[1]) for o in case["ops"]]
+        return f"CPHist {coq_list(tab, 'lobs')} {coq_list(map(str, case['os']), 'nat')} {coq_list(ops, 'pop')}"
     if k == "buf2":
         size = coq_option(None if case["size"] is None else str(case["size"]), "nat")
         ops = ["BReplay" if o[0] == "r" else f"BEvent {o[1]}" for o in case["ops"]]
@@ -449,7 +559,7 @@ SPEC = Spec(
     coq_header="From C57 Require Import Model Run.",
     coq_fn="run_show",
     to_coq=to_coq,
-    nontrivial=lambda c, o: (c["k"] == "pub" and ":x" in o) or (c["k"] == "publive" and any(x[2] is not None for x in c["tab"])) or (c["k"] == "filter" and bool(c["sets"])) or (c["k"] == "fhist" and any(o[0] == "set" for o in c["ops"])) or (c["k"] == "buf" and len(c["events"]) > (c["size"] or 0)) or (c["k"] == "buf2"),
+    nontrivial=lambda c, o: (c["k"] == "pub" and ":x" in o) or (c["k"] == "publive" and any(x[2] is not None for x in c["tab"])) or (c["k"] == "filter" and bool(c["sets"])) or (c["k"] == "fhist" and any(o[0] == "set" for o in c["ops"])) or (c["k"] == "buf" and len(c["events"]) > (c["size"] or 0)) or (c["k"] == "buf2") or (c["k"] == "phist" and ":x" in o),
     histogram=lambda c, o: c["k"],
     rule="publisher: every raise pattern (ok / raises on events / raises on failure reports / both) for 0-4 observers "
          "(thorough 0-5; largest size sampled) plus random sets of 5-7 observers, 1-3 events; extension: 2-6 observers that add / remove observers of the publisher while an event is dispatched (half of the cases without removals), some raising, 1-3 events; filter: random configurations of "
